@@ -18,7 +18,8 @@ pub fn corpus_grammar() -> BoxedStrategy<GrammarSpec> {
 pub fn any_grammar() -> BoxedStrategy<GrammarSpec> {
     prop_oneof![
         4 => regex_grammar(RxOpts { depth: 3, max_weight: 60, ..RxOpts::default() }),
-        4 => crate::cfg::cfg_grammar(),
+        3 => crate::cfg::cfg_grammar(),
+        2 => crate::cfg::cfg_with_ignore(),
         4 => crate::js::schema_grammar(crate::js::Profile::All),
         2 => corpus_grammar(),
     ]
